@@ -107,14 +107,15 @@ func (aquahash *Aquahash) Seal(chain consensus.ChainReader, block *types.Block, 
 // seed that results in correct final block difficulty.
 func (aquahash *Aquahash) mine(version params.HeaderVersion, block *types.Block, id int, seed uint64, abort chan struct{}, found chan *types.Block) {
 	// Extract some data from the header
+	header := block.Header()
+	// the seal-free hash depends on the version: apply it before hashing
+	header.Version = version
 	var (
-		header  = block.Header()
 		hash    = header.HashNoNonce().Bytes()
 		target  = new(big.Int).Div(maxUint256, header.Difficulty)
 		number  = header.Number.Uint64()
 		dataset *ethashdag.Dataset
 	)
-	header.Version = version
 	if header.Version == 0 || header.Version > crypto.KnownVersion {
 		common.Report("Mining incorrect version")
 		return
